@@ -24,6 +24,9 @@ def oracle(case, out):
             for s in st:
                 if s[0] == int(t[3]):
                     s[1].append(int(t[4]))
+        elif op == "fresh":
+            if o != "fallback":
+                return "line %d: before the process had begun any scope the last scope was reported as %s" % (i, o)
         elif op == "last":
             want = "s%d" % st[-1][0] if st else "fallback"
             if o != want:
@@ -62,14 +65,14 @@ def gen_thread(r, tid, deep):
             elif k < 0.35:
                 lines.append("sc %d alloc %d %d" % (tid, r.choice(live), r.choice([0, 1, 24, 300, 5000])))
             if r.random() < 0.05:
-                lines.append("sc %d last" % tid)
+                lines.append("sc %d last%s" % (tid, " null" if r.random() < 0.5 else ""))
         # end the innermost / a middle / the outermost live scope (forgotten ends in between)
         while live and r.random() < 0.8:
             m = r.random()
             k = live[-1] if m < 0.5 else (live[0] if m < 0.6 else r.choice(live))
             lines.append("sc %d end %d" % (tid, k))
             live = live[:live.index(k)]
-            lines.append("sc %d last" % tid)
+            lines.append("sc %d last%s" % (tid, " null" if r.random() < 0.5 else ""))
             if r.random() < 0.3:
                 break
     if r.random() < 0.6:
@@ -78,7 +81,7 @@ def gen_thread(r, tid, deep):
         while live:
             k = r.choice([live[0], live[-1]])
             lines.append("sc %d end %d" % (tid, k)); live = live[:live.index(k)]
-        lines.append("sc %d last" % tid)
+        lines.append("sc %d last%s" % (tid, " null" if r.random() < 0.5 else ""))
     return lines
 
 
@@ -127,6 +130,7 @@ def run(ctx):
     else:
         quick = ctx.tier == "quick"
         cases = vlib.load_corpus("C02")
+        cases.append(["sc 0 fresh", "sc 0 last", "sc 0 last null", "sc 0 begin 0", "sc 0 last", "sc 0 end 0", "sc 0 last null", "sc end"])
         for _ in range(400 if quick else 8000):
             cases.append(gen_case(ctx.rng, deep=False))
         for _ in range(40 if quick else 800):
